@@ -34,7 +34,7 @@ SOURCES = ["include/etl/_type_traits", "include/etl/_concepts", "include/etl/_li
            "include/etl/_math/sign.hpp"]
 CXXSTD = ["-std=c++2b", "-O0", "-w"]
 
-RULE = ("(c) every type of the Lean-enumerated zoo of depth 0 (27 base types x 4 cv) and a seeded sample (thorough: all) of "
+RULE = ("(c) every type of the Lean-enumerated zoo of depth 0 (31 base types x 4 cv; eight enumerations with underlying types of 1, 2, 4 and 8 bytes) and a seeded sample (thorough: all) of "
         "depths 1-2 plus a sample of depth 3 and random deeper terms: 55 structural traits/concepts per type; is_same/same_as "
         "over all ordered pairs of a near-miss list; (d) 60 intrinsic-backed traits/concepts over a 50-class zoo, its cv/ref/"
         "pointer/array variants and a zoo sample, 22 relational traits/concepts + common_type/common_reference/invoke_result "
@@ -57,36 +57,43 @@ TRUSTED = ["hand model Tetl/C15/Model.lean tied to the source by the compile-tim
 
 # ------------------------------------------------------------------ manifest text
 CLAIMED = True
-TECHNIQUE = ("Lean 4 proof (ratio, integer numeric_limits, structural traits over a C++ type grammar) + compile-time "
-             "etl/std/model/spec matrix generated from a Lean-enumerated type zoo; intrinsic-backed class traits: "
-             "differential matrix only")
-LEVEL_TEXT = ("Proved in Lean 4 for all inputs: each of 47 structural traits/concepts, as tetl computes it (partial "
-              "specialisations, SFINAE helpers, the not-const-qualifiable test of is_function, the portable branches of "
-              "is_scalar/is_object), equals the standard's definition for every well-formed type of a grammar with cv, "
-              "pointers, member pointers, references, arrays and qualified function types, and the standard's laws hold "
-              "(exactly one primary category, reference collapsing, remove_cvref = remove_cv after remove_reference); the "
-              "integer numeric_limits members equal 2^digits-1, -2^digits, and digits*3/10 = floor(digits*log10 2) for every "
-              "width below 103 bits; ratio (after three fix: commits): ratio<n,d> has the members n/d in lowest terms with a "
-              "positive denominator for all admissible template arguments and is ill-formed for the others (zero denominator, "
-              "INTMAX_MIN); ratio_add/subtract/multiply/divide are the canonical specialisation of the exact rational result "
-              "in lowest terms whenever that result is representable in intmax_t - no intermediate of the gcd-first products, "
-              "of detail::ratio_add_impl or of detail::ratio_less_impl overflows - and ill-formed whenever it is not (or the "
-              "divisor is zero); ratio_equal/not_equal/less/less_equal/greater/greater_equal equal the exact comparison of the "
-              "rational numbers for all operands (the continued-fraction loop terminates within den+1 iterations).  "
-              "make_signed/make_unsigned/underlying_type are modelled and "
-              "compared on every run but have no full theorem yet (coverage.correspondence_only).  The models are tied to the current "
-              "source on every run by a generated compile-time matrix (etl = model, std = spec, etl = spec) over a Lean-"
-              "enumerated zoo of 1.5e3 (quick) / 1e4 (thorough) types, all arithmetic types and a ratio grid incl. near-"
-              "overflow values.  About 80 intrinsic-backed class traits and relational traits/concepts are compared with "
-              "libstdc++ over a class zoo only (no proof).")
+TECHNIQUE = ("Three parts are Lean 4 proofs about a hand model that is tied to the source by a compile-time matrix on every "
+             "run: (a) <ratio>, (b) numeric_limits of the integer types, (c) the structural traits/concepts over a C++ type "
+             "grammar (incl. make_signed/make_unsigned/underlying_type).  One part is NOT a proof: (d) about 80 intrinsic-"
+             "backed class traits, relational traits and concepts, common_type/common_reference/invoke_result, the floating-"
+             "point numeric_limits and the logical traits are a differential etl-vs-libstdc++ matrix only")
+LEVEL_TEXT = ("PROVED in Lean 4 for all inputs (coverage.theorems): (c) each of 47 structural traits/concepts, as tetl computes "
+              "it (partial specialisations, SFINAE helpers, the not-const-qualifiable test of is_function, the portable "
+              "branches of is_scalar/is_object), equals the standard's definition for every well-formed type of a grammar with "
+              "cv, pointers, member pointers, references, arrays, qualified function types and eight enumerations (underlying "
+              "types of 1/2/4/8 bytes, signed/unsigned, scoped/unscoped), and the standard's laws hold (exactly one primary "
+              "category, reference collapsing, remove_cvref = remove_cv after remove_reference); make_signed/make_unsigned "
+              "name the type of [meta.trans.sign] (corresponding type; smallest rank of equal size for enumerations and "
+              "character types; cv kept) and are ill-formed for the same types, underlying_type is the fixed underlying type; "
+              "(b) the integer numeric_limits members equal 2^digits-1, -2^digits, and digits*3/10 = floor(digits*log10 2) for "
+              "every width below 103 bits; (a) ratio, after three fix: commits, against Mathlib's rational numbers Q: "
+              "ratio<n,d> is n/d in lowest terms with a positive denominator for all admissible template arguments and ill-formed "
+              "for the others (zero denominator, INTMAX_MIN); ratio_add/subtract/multiply/divide are the canonical "
+              "specialisation of the exact sum/difference/product/quotient in Q exactly when numerator and denominator of "
+              "that number fit intmax_t - no intermediate of the gcd-first products, of detail::ratio_add_impl or of "
+              "detail::ratio_less_impl overflows - and ill-formed otherwise (or when the divisor is zero); ratio_equal/"
+              "not_equal/less/less_equal/greater/greater_equal are =, !=, <, <=, >, >= of Q for all operands (the "
+              "continued-fraction loop terminates within den+1 iterations).  TIED TO THE SOURCE on every run by a generated "
+              "compile-time matrix (etl = model, std = spec, etl = spec) over a Lean-enumerated zoo of 1.5e3 (quick) / 1e4 "
+              "(thorough) types, all arithmetic types and a ratio grid incl. near-overflow values and targeted families; "
+              "instantiations that model and spec call ill-formed are compiled alone on a sample and must be rejected.  "
+              "NOT PROVED, differential matrix against libstdc++ only (coverage.unproved_observed): about 80 intrinsic-"
+              "backed class traits and relational traits/concepts over a class zoo, floating-point numeric_limits, "
+              "conjunction/disjunction/negation.")
 LEVEL_NOTE = ("Trusted: Lean kernel + propext/Classical.choice/Quot.sound; fidelity of the hand model outside the explored "
               "types; g++ 12 front end and intrinsics; libstdc++ as oracle.  Part (d) (coverage.unproved_observed) is "
-              "differential testing, not proof.  Floating-point numeric_limits members are compared with std only.")
-CORRESPONDENCE_ONLY = [                       "make_signed, make_unsigned, underlying_type, add_cv, integer numeric_limits::digits10 of the "
-                       "literal specialisations beyond 8-bit bytes",
+              "differential testing, not proof.  Floating-point numeric_limits members are compared with std only.  The "
+              "integer numeric_limits min/max/lowest are modelled as closed forms of (bits, signedness); the header's "
+              "*_MAX macros and shift expressions are tied to them by the matrix over every arithmetic type only.")
+CORRESPONDENCE_ONLY = ["add_cv, integer numeric_limits::digits10 of the literal specialisations beyond 8-bit bytes",
                        "numeric_limits<floating-point>::* (compared with std only)",
-                       "numeric_limits<integer>: is_specialized, is_integer, is_exact, radix, is_bounded, traps and the "
-                       "zero-valued floating-point members",
+                       "numeric_limits<integer>: is_specialized, is_integer, is_exact, radix, is_bounded, traps, the "
+                       "zero-valued floating-point members, and min/max/lowest as the header spells them (macros, shifts)",
                        "conjunction, disjunction, negation, integral_constant (fixed row, etl vs std)"]
 UNPROVED_OBSERVED = [
     "is_trivial", "is_trivially_copyable", "is_standard_layout", "is_empty", "is_polymorphic", "is_abstract", "is_final",
@@ -98,24 +105,27 @@ UNPROVED_OBSERVED = [
     "regular, equality_comparable, swappable, convertible_to, derived_from, assignable_from, constructible_from, common_with, "
     "common_reference_with, invocable"]
 THEOREMS = {
-    "rn": ["Tetl.C15.Props.mkRatio_eq", "Tetl.C15.Props.mkRatio_illformed", "Tetl.C15.Props.mkRatio_valid",
-           "Tetl.C15.Props.reduce_lowest_terms", "Tetl.C15.Props.ratioType_canonical"],
-    "ra": ["Tetl.C15.Props.ratioAdd_eq", "Tetl.C15.Props.ratioAdd_illformed", "Tetl.C15.Props.ratioSub_eq",
-           "Tetl.C15.Props.ratioSub_illformed", "Tetl.C15.Props.ratioMul_eq", "Tetl.C15.Props.ratioMul_illformed",
-           "Tetl.C15.Props.ratioDiv_eq", "Tetl.C15.Props.ratioDiv_illformed", "Tetl.C15.Props.ratioEqual_eq",
-           "Tetl.C15.Props.ratioNotEqual_eq", "Tetl.C15.Props.ratioLess_eq", "Tetl.C15.Props.ratioLessEqual_eq",
-           "Tetl.C15.Props.ratioGreater_eq", "Tetl.C15.Props.ratioGreaterEqual_eq"],
+    "rn": ["Tetl.C15.Props.mkRatio_rat", "Tetl.C15.Props.mkRatio_eq", "Tetl.C15.Props.mkRatio_illformed",
+           "Tetl.C15.Props.mkRatio_valid", "Tetl.C15.Props.valid_num_den", "Tetl.C15.Props.reduce_lowest_terms",
+           "Tetl.C15.Props.ratioType_canonical"],
+    "ra": ["Tetl.C15.Props.ratioAdd_rat", "Tetl.C15.Props.ratioSub_rat", "Tetl.C15.Props.ratioMul_rat",
+           "Tetl.C15.Props.ratioDiv_rat", "Tetl.C15.Props.ratioEqual_rat", "Tetl.C15.Props.ratioNotEqual_rat",
+           "Tetl.C15.Props.ratioLess_rat", "Tetl.C15.Props.ratioLessEqual_rat", "Tetl.C15.Props.ratioGreater_rat",
+           "Tetl.C15.Props.ratioGreaterEqual_rat", "Tetl.C15.Props.ratioAdd_eq", "Tetl.C15.Props.ratioAdd_illformed",
+           "Tetl.C15.Props.ratioSub_eq", "Tetl.C15.Props.ratioSub_illformed", "Tetl.C15.Props.ratioMul_eq",
+           "Tetl.C15.Props.ratioMul_illformed", "Tetl.C15.Props.ratioDiv_eq", "Tetl.C15.Props.ratioDiv_illformed"],
     "lim": ["Tetl.C15.Props.intLimits_eq", "Tetl.C15.Props.intLimits_char_eq", "Tetl.C15.Props.intLimits_bool_char8",
             "Tetl.C15.Props.digits10_eq_floor_log", "Tetl.C15.Props.digits10_eq_spec"],
     "ut": ["Tetl.C15.Props.exactly_one_primary_category", "Tetl.C15.Props.isFunction_eq", "Tetl.C15.Props.removeCv_eq",
            "Tetl.C15.Props.decay_eq", "Tetl.C15.Props.addPointer_eq", "Tetl.C15.Props.addLvalueReference_eq",
            "Tetl.C15.Props.addRvalueReference_eq", "Tetl.C15.Props.reference_collapsing", "Tetl.C15.Props.isObject_eq",
-           "Tetl.C15.Props.isCompound_eq", "Tetl.C15.Props.rank_eq", "Tetl.C15.Props.extent_eq"],
+           "Tetl.C15.Props.isCompound_eq", "Tetl.C15.Props.rank_eq", "Tetl.C15.Props.extent_eq",
+           "Tetl.C15.Props.makeSigned_eq", "Tetl.C15.Props.makeUnsigned_eq", "Tetl.C15.Props.underlyingType_eq"],
     "bt": ["Tetl.C15.Props.isSame_iff", "Tetl.C15.Props.sameAs_eq"],
 }
 
 # ------------------------------------------------------------------ the class zoo (names of harness/c15.cpp)
-CLASS_ZOO = ["Cls", "Uni", "EU", "EUF", "ES", "ESC", "Empty", "EmptyFinal", "Agg", "AggArr", "WithCtor", "ExplicitCtor",
+CLASS_ZOO = ["Cls", "Uni", "EU", "EUF", "ES", "ESC", "ESS", "EUS", "EL", "EULL", "Empty", "EmptyFinal", "Agg", "AggArr", "WithCtor", "ExplicitCtor",
              "NonTrivialDefault", "ThrowingDefault", "NonTrivialCopy", "NothrowCopyThrowingMove", "DeletedCopy", "MoveOnly",
              "DeletedDefault", "DeletedDtor", "ThrowingDtor", "NonTrivialDtor", "VirtualDtor", "Polymorphic", "Abstract",
              "AbstractProtDtor", "PrivateDtor", "Base", "Derived", "DerivedPriv", "DerivedVirt", "PolyFinal", "NonStdLayout",
@@ -158,7 +168,7 @@ def zoo(level):
 def random_enc(rnd, depth):
     """A random term of the encoding grammar (not necessarily well-formed: the driver filters)."""
     if depth == 0:
-        b = rnd.choice(["int", "void", "Cls", "char", "ES", "double", "Uni", "ullong", "nullptr", "EU", "bool"])
+        b = rnd.choice(["int", "void", "Cls", "char", "ES", "double", "Uni", "ullong", "nullptr", "EU", "bool", "EL", "EULL", "ESS", "EUS"])
         q = rnd.choice(["", "", "K1", "K2", "K3"])
         return q + "b" + b + ";"
     k = rnd.choice("PPMLRAUFF")
@@ -370,8 +380,8 @@ def ra_intermediates(line, op):
     return (x, y), _fits(x) and _fits(y)
 
 
-def classify_item(line, key, impl, spec):
-    """Known-finding id for a failing item of a case line, or None."""
+def classify_item(line, key, impl, spec, row=None):
+    """Known-finding id for a failing item of a case line, or None.  `row` = all impl items of the line."""
     if line.startswith("db "):
         # common_reference<T, U> is only defined for identical T and U; the concepts built on it inherit the gap
         if key in ("common_reference_with", "common_with") and impl == "0":
@@ -387,7 +397,11 @@ def classify_item(line, key, impl, spec):
         if key == "swappable" and impl == "1" and spec == "0":
             return "F-C15-swappable-is-not-ranges-swap"
         if key.startswith("is_trivially_constructible<") or key in ("is_trivially_copy_constructible", "is_trivially_move_constructible"):
-            return "F-C15-is-trivially-constructible-ignores-args"
+            # the defect: Args are ignored, the answer is is_trivially_default_constructible<T>; any other wrong answer is new
+            dflt = (row or {}).get("is_trivially_default_constructible")
+            if dflt is None or impl == dflt:
+                return "F-C15-is-trivially-constructible-ignores-args"
+            return None
         return None
     return None            # part (a), (b), (c): no known finding (the three ratio findings are fixed)
 
@@ -480,8 +494,8 @@ def make_items(ctx, cases):
             t = cpp_base(kv["t"])
             it.call = "lrow<%s>(%d);" % (t if q == 0 else "C%d<%s>" % (q, t), idx)
         elif op == "rn":
-            if it.model.strip() == "ill-formed" or it.spec.strip() == "ill-formed":
-                it.skip = True            # outside the domain of std::ratio (or of the model): not instantiated
+            if it.model.strip() == "ill-formed" and it.spec.strip() == "ill-formed":
+                it.skip = True            # ill-formed for both: not instantiated in the matrix (probed alone, see run())
             else:
                 it.call = "rnrow<%sL, %sL>(%d);" % (kv["n"], kv["d"], idx)
         elif op == "ra":
@@ -744,7 +758,7 @@ def run(ctx, replay=None):
             log("MACHINERY-ERROR spec!=std (defect of the Lean spec, not of tetl): %s: %s spec=%s std=%s" % (ln, key, p, s))
             machinery = True
             continue
-        fid = classify_item(ln, key, i, p if p is not None else s) if kind == "R3" else None
+        fid = classify_item(ln, key, i, p if p is not None else s, parse_items(it.impl)) if kind == "R3" else None
         if fid and known.get(fid, {}).get("status") == "known":
             ctx.known(fid, known[fid].get("what", ""))
             finding_seen.add(fid)
